@@ -339,13 +339,13 @@ func emitQueries(c *Ctx, hx string, p *ptn.PTN, maxNum int) {
 		maxNum = 200
 	}
 	var ns []int
-	if maxNum <= 12 || c.Thorough() {
+	if maxNum <= 8 || c.Thorough() {
 		for n := 0; n <= maxNum+2; n++ {
 			ns = append(ns, n)
 		}
 	} else {
 		ns = []int{0, 1, 2, maxNum - 1, maxNum, maxNum + 1, maxNum + 2}
-		for k := 0; k < 6; k++ {
+		for k := 0; k < 3; k++ {
 			ns = append(ns, 1+c.R.Intn(maxNum))
 		}
 	}
